@@ -101,11 +101,18 @@ StageNeed == /\ ctl.k = "need" /\ ctl.at \in 1..n
                 ELSE ctl' = NeedAt(i - 1) /\ UNCHANGED <<q, loc, fin>>
              /\ UNCHANGED <<scen, runvars, pos, out, pulls, asked, stopped>>
 
-StageHave == /\ ctl.k = "have" /\ ctl.at \in 1..n
+Raises(st, v) == st.t = "raiser" /\ v.d = st.at
+StageHave == /\ ctl.k = "have" /\ ctl.at \in 1..n /\ ~Raises(prog[ctl.at], ctl.v)
              /\ LET i == ctl.at
                     r == OnHave(prog[i], loc[i], ctl.v) IN
                 /\ loc' = [loc EXCEPT ![i] = r.loc] /\ q' = [q EXCEPT ![i] = @ \o r.em] /\ ctl' = NeedAt(i)
              /\ UNCHANGED <<scen, runvars, pos, fin, out, pulls, asked, stopped>>
+
+\* a plain callable raises for the value it is given: the exception ends every generator of the chain and
+\* reaches the consumer; what was delivered stays delivered, nothing more is computed
+Fail == /\ ctl.k = "have" /\ ctl.at \in 1..n /\ Raises(prog[ctl.at], ctl.v)
+        /\ stopped' = "failed" /\ ctl' = Dead
+        /\ UNCHANGED <<scen, runvars, pos, loc, q, fin, out, pulls, asked>>
 
 StageEof == /\ ctl.k = "eof" /\ ctl.at \in 1..n
             /\ LET i == ctl.at IN
@@ -147,7 +154,7 @@ Rerun == /\ run < MaxRuns /\ built = "ok" /\ N # Inf /\ AllReusable
          /\ ctl' = Idle /\ out' = <<>> /\ pulls' = <<>> /\ asked' = FALSE /\ stopped' = "no"
          /\ UNCHANGED scen
 
-Next == Ask \/ StageNeed \/ StageHave \/ StageEof \/ Source \/ Deliver \/ Stop \/ Abort \/ Rerun
+Next == Ask \/ StageNeed \/ StageHave \/ Fail \/ StageEof \/ Source \/ Deliver \/ Stop \/ Abort \/ Rerun
 Spec == Init /\ [][Next]_vars
 FairSpec == Spec /\ WF_vars(Next)
 
@@ -166,6 +173,9 @@ OutIsPrefix == (built = "ok" /\ AtRest) => LET ref == Sem(prog, xs) IN
 EmptyIsIdentity == (prog = <<>> /\ Exhausted) => out = xs
 \* C01: ill-typed arguments are rejected at construction: no run state ever exists
 BadRejectedAtBuild == HasBad(prog) => (built = "LenaTypeError" /\ ~asked /\ pos = 0)
+\* C01: a callable that raises for a value: the values before it, then the exception - never a quiet end
+FailEqDen == (built = "ok" /\ (Exhausted \/ stopped = "failed")) =>
+                [out |-> out, failed |-> stopped = "failed"] = SemF(prog, xs)
 \* regrouping into nested Sequences: Sem is a fold, so every split point gives the same result
 Regroup == (built = "ok" /\ Exhausted) =>
               \A k \in 0..n : Sem(SubSeq(prog, k + 1, n), Sem(SubSeq(prog, 1, k), xs)) = out
@@ -207,10 +217,11 @@ Terminates == <>Done
 (***************************************************************************)
 (* Export.                                                                 *)
 (***************************************************************************)
-Emitted == (Done /\ stopped = "no") =>
+Emitted == (Done /\ stopped \in {"no", "failed"}) =>
               PrintT(ToJson([prog |-> prog, n |-> N, pairs |-> pairs, built |-> built,
                              out |-> out, pulls |-> pulls, endpos |-> pos,
-                             exhausted |-> Exhausted, base |-> base, prev |-> prev, vals |-> Vals]))
+                             exhausted |-> Exhausted, base |-> base, prev |-> prev, vals |-> Vals,
+                             failed |-> stopped = "failed"]))
 
 (***************************************************************************)
 (* Alphabets used by the model-checking and export configurations.         *)
@@ -228,14 +239,18 @@ ExtC01 == {NoData, Map("cls"), Map("meth"), Map("part"), Map("print"), LastAttr,
            SplitSt(<<>>, 2), SplitSt(<<Map("inc"), FcSum("dbl")>>, None), SplitSt(<<Filter("even")>>, 1),
            SplitSt(<<Map("dbl")>>, 1000),
            SplitSt(<<SeqBr(<<Filter("even"), Map("inc")>>), SeqBr(<<SplitSt(<<Map("dbl"), Map("inc")>>, 1)>>)>>, 3),
-           SplitSt(<<SeqBr(<<Slice(0, 1, 1)>>), Map("inc")>>, 2)}
+           SplitSt(<<SeqBr(<<Slice(0, 1, 1)>>), Map("inc")>>, 2),
+           RunIfS("even", <<Map("inc"), Map("dbl")>>), RunIfS("lt2", <<Filter("even"), Map("tag"), Map("inc")>>)}
 AlphaC01Ext == ExtC01 \cup CtxC01
 \* arguments that cannot be converted to an element: also values that look like nothing, objects with half of an
 \* interface, arguments nested in a Split or a RunIf
 BadC01 == {Bad("int"), Bad("str"), Bad("obj"), Bad("runnone"), Bad("rundata"), Bad("none"), Bad("zero"),
            Bad("estr"), Bad("edict"), Bad("elist"), Bad("false"), Bad("fillonly"), Bad("fillattr"),
            Bad("fillreq"), Bad("float"), SplitSt(<<Map("inc"), Bad("int")>>, 2), SplitSt(<<Bad("none")>>, 2),
-           RunIf("even", "bad")}
+           RunIf("even", "bad"),
+           \* containers that hold elements are not elements
+           Bad("tup_acc"), Bad("tup_acc1"), Bad("list_acc"), Bad("list_facc"), Bad("tup_count"), Bad("list_f"),
+           Bad("tup_f"), Bad("set_acc"), Bad("dict_acc"), Bad("list_run")}
 AlphaC01Bad == BadC01 \cup {Map("inc"), Count, Sum, End, NoData}
 \* callables that yield None, followed by elements that count, drop, delay or store values
 AlphaNul == {Map("nul"), Map("inc"), Filter("even"), Slice(1, 3, 1), LagK(1), LastK(2), Count,
@@ -248,6 +263,11 @@ AlphaVals == {Map("id"), Map("tag"), Map("print"), Filter("all"), Filter("even")
 AlphaRerun == {Map("inc"), Filter("even"), Slice(1, 3, 1), Slice(0, 2, 1), NSlice(None, -1, 1), NSlice(-2, None, 1),
                RunIf("even", "inc"), Reverse, End, NoData, SplitSt(<<Map("inc"), Filter("even")>>, 2),
                SplitSt(<<SeqBr(<<Slice(0, 1, 1)>>)>>, 2)}
+\* callables that raise for one value (StopIteration, ValueError, a Lena exception), before and after elements
+\* that finish early, look ahead, buffer, store or accumulate
+RaisersC01 == {Raiser(1, "stop"), Raiser(2, "value"), Raiser(0, "lena"), Raiser(3, "stop")}
+AlphaFail == RaisersC01 \cup {Map("inc"), Filter("even"), Slice(0, 2, 1), Count, Sum, Reverse, LagK(1),
+                              SplitSt(<<Map("inc"), Filter("even")>>, 2), RunIf("even", "inc")}
 AlphaC01Small == {Map("inc"), Map("tag"), Filter("even"), Slice(1, 3, 1), LagK(1), Count,
                   RunIf("even", "inc"), Reverse, Sum, SplitSt(<<Map("inc"), Sum>>, 2), Bad("int")}
 \* ---- C02 ----
